@@ -32,7 +32,7 @@ def uleqStep (msbs x y : Nat) : Out Nat :=
 def where16 (first second y : Nat) : Out Nat :=
   (uleqStep MSBS_STEP_16 first y) >>= fun a =>
   (uleqStep MSBS_STEP_16 second y) >>= fun b =>
-    .ok ((popc a + popc b) * 2)
+    .ok ((pc64 a + pc64 b) * 2)
 
 /-- `BlockCounters::rel` -/
 def relOf (relative word : Nat) : Nat := (relative >>> (9 * (word ^^^ 7))) &&& 0x1FF
@@ -61,7 +61,7 @@ def invWhile (q i word curr onesInWord : Nat) : Nat → Array Nat → Nat → Ou
 def invLoop (numOnes : Nat) : List Nat → Nat → Array Nat → Nat → Nat → Out (Array Nat)
   | [], _, inv, _, _ => .ok inv
   | word :: rest, i, inv, curr, nq =>
-    let onesInWord := min (popc word) (numOnes - curr)
+    let onesInWord := min (pc64 word) (numOnes - curr)
     (invWhile 512 i word curr onesInWord 65 inv nq) >>= fun (inv', nq') =>
       invLoop numOnes rest (i + 1) inv' (curr + onesInWord) nq'
 
@@ -178,6 +178,24 @@ def build (ws : Array Nat) (len numOnes : Nat) (cnt : R9View) : Out S9 :=
 
 /-! ## query -/
 
+/-- index read by the span class `≥ 512`:
+`subinv_ref.get_unchecked(subinv_pos + rank % ONES_PER_INVENTORY)` (/repo @ 53d5514; before that
+commit the source did not add `subinv_pos`, finding D27) -/
+def bigIdx (subPos j : Nat) : Nat := subPos + j
+
+/-- common tail of `select_unchecked`: search inside the Rank9 block `count_left` whose first word
+is `block_left`, for the one of rank `rank_in_block` inside the block -/
+def finish (ws : Array Nat) (cnt : R9View) (blockLeft countLeft rankInBlock : Nat) : Out Nat :=
+  (mulU 64 rankInBlock ONES_STEP_9) >>= fun step9 =>
+  (Out.readU cnt.rel countLeft) >>= fun relative =>
+  (uleqStep MSBS_STEP_9 relative step9) >>= fun u =>
+  let off := pc64 u
+  (check (decide (off ≤ 7))) >>= fun _ =>
+  let word := blockLeft + off
+  (subU rankInBlock (relOf relative off)) >>= fun rankInWord =>
+  (Out.readU ws word) >>= fun w =>
+  (selInWord w rankInWord) >>= fun p => .ok (word * 64 + p)
+
 /-- `Select9::select_unchecked` -/
 def selectUnchecked (ws : Array Nat) (cnt : R9View) (s : S9) (rank : Nat) : Out Nat :=
   let invIdx := rank >>> 9
@@ -188,17 +206,6 @@ def selectUnchecked (ws : Array Nat) (cnt : R9View) (s : S9) (rank : Nat) : Out 
   let blockLeft := invLeft / 64
   (subU (blockRight / 4) (blockLeft / 4)) >>= fun span =>
   let subPos := blockLeft / 4
-  /- common tail: search inside the Rank9 block `count_left` starting at word `block_left` -/
-  let finish := fun (blockLeft countLeft rankInBlock : Nat) =>
-    (mulU 64 rankInBlock ONES_STEP_9) >>= fun step9 =>
-    (Out.readU cnt.rel countLeft) >>= fun relative =>
-    (uleqStep MSBS_STEP_9 relative step9) >>= fun u =>
-    let off := popc u
-    (check (decide (off ≤ 7))) >>= fun _ =>
-    let word := blockLeft + off
-    (subU rankInBlock (relOf relative off)) >>= fun rankInWord =>
-    (Out.readU ws word) >>= fun w =>
-    (selInWord w rankInWord) >>= fun p => .ok (word * 64 + p)
   if span ≤ 1 then
     let blockLeft := andNot blockLeft 7
     let countLeft := blockLeft / 8
@@ -206,7 +213,7 @@ def selectUnchecked (ws : Array Nat) (cnt : R9View) (s : S9) (rank : Nat) : Out 
     (check (decide (rank < nxt))) >>= fun _ =>
     (Out.readU cnt.abs countLeft) >>= fun a =>
     (subU rank a) >>= fun rankInBlock =>
-      finish blockLeft countLeft rankInBlock
+      finish ws cnt blockLeft countLeft rankInBlock
   else if span ≤ 15 then
     let blockLeft := andNot blockLeft 7
     let countLeft := blockLeft / 8
@@ -222,7 +229,7 @@ def selectUnchecked (ws : Array Nat) (cnt : R9View) (s : S9) (rank : Nat) : Out 
     (Out.readU cnt.abs countLeft) >>= fun a' =>
     (subU rank a') >>= fun rankInBlock =>
     (check (decide (rankInBlock < 512))) >>= fun _ =>
-      finish blockLeft countLeft rankInBlock
+      finish ws cnt blockLeft countLeft rankInBlock
   else if span ≤ 127 then
     let blockLeft := andNot blockLeft 7
     let countLeft := blockLeft / 8
@@ -242,7 +249,7 @@ def selectUnchecked (ws : Array Nat) (cnt : R9View) (s : S9) (rank : Nat) : Out 
     (Out.readU cnt.abs countLeft) >>= fun a' =>
     (subU rank a') >>= fun rankInBlock =>
     (check (decide (rankInBlock < 512))) >>= fun _ =>
-      finish blockLeft countLeft rankInBlock
+      finish ws cnt blockLeft countLeft rankInBlock
   else if span ≤ 255 then
     -- `subinv_ref.get_unchecked(subinv_pos..subinventory_size).align_to::<u16>()`
     if subPos ≤ s.ssz ∧ s.ssz ≤ s.sub.size ∧ rank % 512 < 4 * (s.ssz - subPos) then
@@ -253,7 +260,7 @@ def selectUnchecked (ws : Array Nat) (cnt : R9View) (s : S9) (rank : Nat) : Out 
       .ok (getSub 32 s.sub subPos (rank % 512) + invLeft)
     else .oob
   else
-    Out.readU s.sub (rank % 512)
+    Out.readU s.sub (bigIdx subPos (rank % 512))
 
 /-- `Select::select` (trait default) with `num_ones()` delegated to Rank9 -/
 def select (ws : Array Nat) (cnt : R9View) (numOnes : Nat) (s : S9) (rank : Nat) : Out (Option Nat) :=
